@@ -17,11 +17,11 @@ from props import c09_util as U9
 
 PROP = "C09"
 LEVEL = "proof"
-INCLUDE = ['w4s_c09']   # wave 4 (lead, integration): generated skeleton of the cp_als main loop (Gen/GenCpAls.v): bridge theorem + replay stream sk_cpals
+INCLUDE = ['w4s_c09', 'w4s_c09b']   # wave 4 (lead, integration): generated skeleton of the cp_als main loop (Gen/GenCpAls.v): bridge theorem + replay stream sk_cpals
 GEN_UNITS = ["GenCpAls"]
-COQ_TARGETS = ["Props/C09.vo", "Props/C09b.vo", "Props/C09c.vo", "Props/C09d.vo", "Model/C09Exec.vo", "Model/C09Init.vo", "Model/C09Replay.vo",
+COQ_TARGETS = ["Props/C09.vo", "Props/C09b.vo", "Props/C09c.vo", "Props/C09d.vo", "Props/C09e.vo", "Model/C09Exec.vo", "Model/C09Init.vo", "Model/C09Replay.vo",
                "Model/C09InnerExec.vo", "Model/Harness.vo"]
-THEOREM_FILES = ["Props/C09.v", "Props/C09b.v", "Props/C09c.v", "Props/C09d.v"]
+THEOREM_FILES = ["Props/C09.v", "Props/C09b.v", "Props/C09c.v", "Props/C09d.v", "Props/C09e.v"]
 COQ_IMPORTS = ("From Coq Require Import List ZArith QArith Qcanon Bool.\n"
                "From PV Require Import Base.Index Np.Array Model.Sparse Model.Repr Model.Harness Model.C09Als Model.C09Exec Model.C09Init Model.C09Replay Model.C09InnerExec.\n")
 RULE = ("integer data tensors 3x3x2 .. 4x3x2, 2-way and 4-way (<= 24 entries) held as dense / sparse (3 stored orders) / Tucker / "
@@ -48,8 +48,8 @@ RULE = ("integer data tensors 3x3x2 .. 4x3x2, 2-way and 4-way (<= 24 entries) he
         "tensor, printing on / off, maxiters 0). Wave 5: sparse data with a LONG, THINLY POPULATED mode and colliding entries (at most half "
         "as many stored entries as the mode is long, two or three of them on one index of that mode; 2x3x8, 8x2x3, 2x9x2, 3x2x10, 2x2x2x8, "
         "2x2x12, 10x3x2, thorough also 4x5x30 / 30x4x5; alone and as the sparse part of a sum tensor; the long mode updated last in two "
-        "cases of three; starts that do not silence a stored entry); on EVERY run pyttb's X.innerprod(M) and X.norm() (data object, returned "
-        "model) compared in Coq with the algorithm models of every holder class (holder_inner_ok; theorems Props/C09d.v).")
+        "cases of three; starts that do not silence a stored entry); on EVERY run pyttb's X.norm() and, on the runs in which cp_als itself calls it (printing runs, maxiters = 0), X.innerprod(M) "
+        "(data object, returned model) compared in Coq with the algorithm models of every holder class (holder_inner_ok; theorems Props/C09d.v).")
 TOL = "tol6"
 SHARD = 2
 COND_MIN = F(1, 1000)
@@ -805,7 +805,11 @@ def _inner_part(a, r, lead):
     if "ip" not in r or isinstance(r["ip"], str) or isinstance(r["nrm"], str) or not _numeric(r["model"]):
         return ""
     K = U9.gqk(r["model"]["weights"], r["model"]["factors"])
-    return (f"{lead}holder_inner_ok {TOL} {gbool(a['data']['kind'] == 'sum')} {U9.gparts(a['data'])} {K} {gq(r['ip'])} {gq(r['nrm'])}")
+    # the innerprod is compared on the runs in which cp_als itself calls it (printing runs, maxiters = 0): a mismatch there is a wrong
+    # REPORT; the norm (normX) is used by every run
+    chk_ip = int(a.get("printitn", 0)) > 0 or r["m"] == 0
+    return (f"{lead}holder_inner_ok {TOL} {gbool(a['data']['kind'] == 'sum')} {gbool(chk_ip)} {U9.gparts(a['data'])} {K} "
+            f"{gq(r['ip'])} {gq(r['nrm'])}")
 
 
 def coq_check(c, o):
